@@ -72,6 +72,18 @@ def evaluate(prop, sc, want_trace=False):
     elif prop == 'C16':
         V += check_c16(sc, an)
     out.violations = [v for v in V if v.prop == prop]
+    # fault kinds that actually fired in this run (not merely configured)
+    nst = sum(1 for e in res.events if e[2] == 'stall')
+    nfail = sum(1 for a in an.acts if a.ok is False)
+    nsw = sum(1 for e in res.events if e[2] == 'sched')
+    if nst:
+        out.faults['loop_stall'] = nst
+    if nfail:
+        out.faults['injected_failure'] = nfail
+    if nsw:
+        out.faults['seeded_thread_switch'] = nsw
+    if res.spin_jumps:
+        out.faults['busy_wait_clock_jump'] = res.spin_jumps
     out.probes = probes(prop, sc, an)
     out.nontrivial = bool(out.probes)
     if res.status == 'step_cap':
